@@ -465,9 +465,9 @@ def extrema(curext, mm, maxcase, mincase=None, casenum=None):
     def _put_time(curext, mm, j, col_lhs, col_rhs):
         if mm.ext_x is not None:
             if curext.ext_x is None:
-                curext.ext_x = copy.copy(mm.ext_x)
-            else:
-                curext.ext_x[j, col_lhs] = mm.ext_x[j, col_rhs]
+                # the extrema found so far have no x-values
+                curext.ext_x = np.full(curext.ext.shape, np.nan)
+            curext.ext_x[j, col_lhs] = mm.ext_x[j, col_rhs]
         elif curext.ext_x is not None:  # pragma: no cover
             curext.ext_x[j, col_lhs] = np.nan
 
